@@ -17,7 +17,8 @@ RULE = ("systematic + random values through gdstk's codecs (in-memory OasisStrea
         "neighbours of 1/n; point lists (Manhattan both starts, octangular, general, open/closed, repeated vertices, "
         "length 1..50) encoded by gdstk and decoded by the reference and encoded by the reference in every legal type "
         "and decoded by gdstk. A value is non-trivial when it lies within 1 of a 7-bit-group boundary, a power of 16 or "
-        "is an alternative (non-canonical) encoding; distinct by (codec, value). Every case runs on the clang build and on a "
+        "is an alternative (non-canonical) encoding; distinct by (codec, value). Point lists also systematically: every strictly "
+        "alternating 4-point list with the first vertex in -3..3 and steps +-1..3, open and closed. Every case runs on the clang build and on a "
         "g++ build of the same sources (order of evaluation and conversions are compiler dependent)")
 ASSUMPTIONS = ["reference codecs in pbt/oasnum.py follow DESIGN.md Appendix A", "non-minimal integer encodings are limited to 10 bytes",
                "signed values are limited to |v| <= 2^63-1 (sign-magnitude cannot carry -2^63)"]
@@ -505,6 +506,26 @@ def run_worker(ctx):
         except Violation as v:
             v.test = codec
             vs.append(v)
+    # systematic small closed/open point lists: every strictly alternating horizontal/vertical list of 4 points with the first
+    # vertex in -3..3 and steps in {+-1, +-2, +-3} (both orientations), i.e. every coincidence between a vertex coordinate and a
+    # step that a compact-form decision could confuse; the closing edge is whatever it turns out to be (mostly slanted)
+    import itertools
+    stp = (-3, -2, -1, 1, 2, 3)
+    for i, (x0, y0, a, b, c, hfirst, closed) in enumerate(itertools.product(range(-3, 4), range(-3, 4), stp, stp, stp, (True, False), (True, False))):
+        if i % ctx.nworkers != ctx.worker or (not q and False):
+            continue
+        if q and (i // ctx.nworkers) % 3 != ctx.seed % 3:
+            continue        # the quick tier takes a third of them, chosen by the seed
+        pts = [[x0, y0]]
+        for k, d in enumerate((a, b, c)):
+            horiz = hfirst if k % 2 == 0 else not hfirst
+            pts.append([pts[-1][0] + d, pts[-1][1]] if horiz else [pts[-1][0], pts[-1][1] + d])
+        try:
+            check_both(ctx, {"points": pts, "closed": closed})
+        except Violation as v:
+            v.test = "plist_small"
+            vs.append(v)
+            break
     plan = [
         ("gdsreal", st.lists(lognormal_doubles(), min_size=1, max_size=200).map(lambda v: {"codec": "gdsreal", "values": v}), 1200 if q else 30000),
         ("gdsreal_raw", st.lists(st.integers(0, U64), min_size=1, max_size=100).map(lambda v: {"codec": "gdsreal_raw", "values": v}), 400 if q else 8000),
